@@ -18,9 +18,10 @@ static void unbiased_core(QuantSys<Fam>& sys, const std::vector<LeafView<Fam> >&
   std::vector<T> grid = sys.query_grid(); std::sort(grid.begin(), grid.end(), cmp);
   std::vector<double> ei(grid.size(), 0), ee(grid.size(), 0); double mass = 0; std::vector<T> model; uint64_t dmin = ~0ull, dmax = 0;
   for (size_t i = 0; i < d.size(); ++i) {
-    const typename Fam::Sk& sk = *d[i].st->slots[slot].sk; model = d[i].st->slots[slot].model;
+    model = d[i].st->slots[slot].model;
     mass += d[i].prob; dmin = std::min(dmin, d[i].dmin); dmax = std::max(dmax, d[i].dmax);
-    if (sk.is_empty()) continue;
+    if (!d[i].st->slots[slot].sk || d[i].st->slots[slot].sk->is_empty()) continue;
+    const typename Fam::Sk& sk = *d[i].st->slots[slot].sk;
     for (size_t g = 0; g < grid.size(); ++g) { ei[g] += d[i].prob * sk.get_rank(grid[g], true) * sk.get_n(); ee[g] += d[i].prob * sk.get_rank(grid[g], false) * sk.get_n(); }
   }
   std::sort(model.begin(), model.end(), cmp);
@@ -82,7 +83,7 @@ static void martingale_history(QuantSys<Fam> sys, const std::vector<std::string>
   std::unique_ptr<State> cur(sys.make()); const size_t NS = cur->slots.size();
   auto ranks = [&](State& st, std::vector<std::vector<double> >& out) {   // n * rank per slot, on a clone (queries mutate caches)
     std::unique_ptr<State> q(sys.clone(st)); out.assign(NS, std::vector<double>(2 * grid.size(), 0.0));
-    for (size_t sl = 0; sl < NS; ++sl) { const typename Fam::Sk& sk = *q->slots[sl].sk; if (sk.is_empty()) continue;
+    for (size_t sl = 0; sl < NS; ++sl) { if (!q->slots[sl].sk || q->slots[sl].sk->is_empty()) continue; const typename Fam::Sk& sk = *q->slots[sl].sk;
       for (size_t g = 0; g < grid.size(); ++g) { out[sl][2 * g] = sk.get_rank(grid[g], true) * sk.get_n(); out[sl][2 * g + 1] = sk.get_rank(grid[g], false) * sk.get_n(); } }
   };
   uint64_t steps = 0, coin_steps = 0, max_outcomes = 1; ChoiceStats cst;
@@ -212,7 +213,7 @@ template<class Fam>
 static void family_tasks(std::vector<Task>& tasks, const Config& cfg, const std::string& fam, Cfg base, const std::vector<Cfg>& other_cfgs, int bfs_n, int shape_n, int merge_n1, int merge_n2, int long_n) {
   typedef typename Fam::Item T;
   std::vector<std::string> vn; { std::vector<T> v = Dom<T>::values(); for (size_t i = 0; i < v.size(); ++i) vn.push_back(Dom<T>::s(v[i])); }
-  std::string tag = fam + "/k" + str(base.k) + (fam.find("req") == 0 ? std::string(base.hra ? "/hra" : "/lra") + "/coin" + str(base.init_coin) : "");
+  std::string tag = fam + "/k" + str(base.k) + (fam.find("req") == 0 ? std::string(base.hra ? "/hra" : "/lra") : "");
   { QuantSys<Fam> sys; sys.nm = tag + "/all-sequences"; sys.slot_cfgs.push_back(base); sys.light_check = true; sys.check_published = true; sys.vals.resize(3); sys.add_update_ops(0, false);
     Task t; t.name = sys.nm; t.fn = [sys, bfs_n, &cfg](Report& rep) { dist_bfs<Fam>(sys, bfs_n, rep, cfg); }; tasks.push_back(t); }
   const char* shapes[] = {"sorted", "reversed", "zigzag", "organ", "constant", "mixed"};
@@ -375,6 +376,7 @@ static void long_req(const std::string& name, int k, bool hra, int n, int S, Rep
 int main(int argc, char** argv) {
   Config cfg = parse_args(argc, argv);
   forbid_unowned_draws();
+  case_timeout_s() = 900;   // one journalled case is the complete expansion of one leaf
   const bool q = cfg.quick();
   std::vector<Task> tasks;
   { Task t; t.name = "meta"; t.fn = [](Report& rep) {
@@ -398,8 +400,8 @@ int main(int argc, char** argv) {
       size_t from = seq.size() - 3;
       Task t; t.name = sys.nm; t.fn = [sys, seq, from, &cfg](Report& rep) { fixed_history<F>(sys, seq, 0, from, rep, cfg); }; tasks.push_back(t);
     } }
-  for (int h = 0; h < 2; ++h) for (int ic = 0; ic < 2; ++ic) { typedef ReqFam<float, std::less<float> > F; if (q && ic == 1) continue;
-    Cfg c; c.k = 4; c.hra = h == 1; c.init_coin = ic; std::vector<Cfg> oc; oc.push_back(c); Cfg c2 = c; c2.k = 6; if (!q) oc.push_back(c2);
+  for (int h = 0; h < 2; ++h) for (int ic = 0; ic < 1; ++ic) { typedef ReqFam<float, std::less<float> > F;
+    Cfg c; c.k = 4; c.hra = h == 1; c.init_coin = ic; std::vector<Cfg> oc; oc.push_back(c); Cfg c2 = c; c2.k = 6; oc.push_back(c2);
     family_tasks<F>(tasks, cfg, "req-float", c, oc, q ? 26 : 30, q ? 160 : 320, 24, q ? 30 : 50, q ? 200 : 420); }
   { typedef ClassicFam<int, std::less<int> > F; Cfg c; c.k = 2; std::vector<Cfg> oc; oc.push_back(c); Cfg c2; c2.k = 4; oc.push_back(c2); c2.k = 8; if (!q) oc.push_back(c2);
     family_tasks<F>(tasks, cfg, "classic-int", c, oc, q ? 10 : 14, q ? 30 : 48, 5, q ? 9 : 13, q ? 40 : 60);
